@@ -572,6 +572,15 @@ int main(int argc, char **argv) {
                         os << iv->getIndices()[k];
                     }
                     os << "]";
+                } else if (auto *sv = dyn_cast<ShuffleVectorInst>(&I)) {
+                    os << ",\"mask\":[";
+                    bool f = true;
+                    for (int mk : sv->getShuffleMask()) {
+                        if (!f) os << ",";
+                        f = false;
+                        os << mk;
+                    }
+                    os << "]";
                 } else if (auto *ci = dyn_cast<CastInst>(&I)) {
                     Type *st = ci->getSrcTy();
                     if (st->isIntegerTy()) os << ",\"srcbits\":" << st->getIntegerBitWidth();
